@@ -80,9 +80,9 @@ def _run(ctx):
 
     shear_pairs = [(a, b) for a, b in T.VOIGT21 if T.classify(a, b) == "shear"]
     assert len(shear_pairs) == 15
-    nrand = ctx.pick(20, 2000)
-    nlin = ctx.pick(14, 1000)
-    nstrain = ctx.pick(6, 300)
+    nrand = ctx.pick(20, 40000)
+    nlin = ctx.pick(14, 10000)
+    nstrain = ctx.pick(6, 3000)
 
     for ik, (a, b) in enumerate(shear_pairs):
         if not ctx.mine(ik, f"key{a}{b}"):
